@@ -3,6 +3,7 @@ CONSTANTS
   MODE = "all"
   PADS_AB = {0, 1, 2, 255, 256, 510, 511}
   PADS_CD = {0, 1, 2, 255, 256, 510, 511}
+  PADS_FRAG = {0, 255, 492, 493, 504, 505, 511}
   FULLFR = FALSE
 INVARIANT Inv
 CHECK_DEADLOCK TRUE
